@@ -47,7 +47,11 @@ fn check(rep: &mut Report, b: &Build, cls: &str) {
         let mut log = Vec::new();
         // prior history must not matter: a quarter of the cases start after an abandoned group
         // or a delivered one
-        match (f.payload.len() + f.n as usize + f.k as usize) % 8 {
+        // the kind of prior history rotates per (call, decode flag), so that every class of line
+        // meets every kind of history
+        static ROT: std::sync::atomic::AtomicUsize = std::sync::atomic::AtomicUsize::new(0);
+        let rot = ROT.fetch_add(1, std::sync::atomic::Ordering::Relaxed);
+        match (rot / 2) % 8 {
             0 => {
                 let l = nmea_ref::mk(3, 1, Some(77), &uniq_payload(901), 0);
                 let _ = p.parse(&l, false);
@@ -58,6 +62,14 @@ fn check(rep: &mut Report, b: &Build, cls: &str) {
                     let l = nmea_ref::mk(2, k, f.id, &uniq_payload(902 + k as u64), 0);
                     let _ = p.parse(&l, false);
                     log.push((l, false));
+                }
+            }
+            2 => {
+                // a group whose delivery fails in decoding (decoding requested)
+                for k in 1..=2u8 {
+                    let l = nmea_ref::mk(2, k, f.id, b"zz00", 0);
+                    let _ = p.parse(&l, true);
+                    log.push((l, true));
                 }
             }
             _ => {}
@@ -128,7 +140,8 @@ fn check(rep: &mut Report, b: &Build, cls: &str) {
         if s.fill != f.fill {
             wrong.push(format!("fill_bit_count {} for {}", s.fill, f.fill));
         }
-        if in_domain && s.data != exp_data {
+        // outside 1 <= k <= n nothing was primed: whatever is accepted reports its own bytes
+        if s.data != exp_data {
             wrong.push(format!("payload {:?} for {:?}", crate::json::esc_bytes(&s.data), crate::json::esc_bytes(&exp_data)));
         }
         if in_domain && s.has_more != (f.k < f.n) {
